@@ -833,6 +833,22 @@ def gen_placed_multiround(rng, alg, cone, variant):
             "S": [0, 1], "P": [], "rounds": [boxes(r1), boxes(r2)], "enabled": True}
 
 
+def gen_placed_moving(rng, alg):
+    """three designs over two rounds under the orthant; the regions are REBUILT each round, not nested: in round 1
+    design 1 cannot ε-cover design 0 (its second coordinate is too low) while design 2 can, so 0 stays in S; in
+    round 2 design 2 has dropped (and is discarded) while design 1's region has risen and now covers 0 with margin
+    0.1 — 0 must still stay in S.  An answer about the pair (0, 1) remembered from round 1 lets 0 into P."""
+    a = core.dyadic(rng, -8, 8, 2)
+    def box(lo, hi):
+        return ([a + lo[0], a + lo[1]], [a + hi[0], a + hi[1]])
+    r1 = [box([1.0, 1.0], [1.5, 1.5]), box([2.0, 0.0], [2.5, 0.5]), box([0.8, 0.8], [1.2, 1.2])]
+    r2 = [box([1.0, 1.0], [1.5, 1.5]), box([2.0, 0.6], [2.5, 1.1]), box([0.2, 0.2], [0.6, 0.6])]
+    def boxes(r):
+        return {"lower": [b[0] for b in r], "upper": [b[1] for b in r]}
+    return {"kind": "placed", "shape": "two-rounds-moving", "alg": alg, "cone": "orthant2", "eps": 0.015625, "n": 3,
+            "S": [0, 1, 2], "P": [], "rounds": [boxes(r1), boxes(r2)], "enabled": True}
+
+
 def gen_placed_cases2(seed):
     """second deterministic list (separate generator so that the first list is unchanged)"""
     import random
@@ -857,6 +873,8 @@ def gen_placed_cases2(seed):
         for cone in cones:
             for variant in ("upper-shrinks", "lower-rises", "both"):
                 out.append(gen_placed_multiround(rng, alg, cone, variant))
+    for alg in ("EpsilonPAL", "VOGP", "VOGP_AD"):
+        out.append(gen_placed_moving(rng, alg))
     return [c for c in out if c is not None]
 
 
